@@ -25,7 +25,15 @@ SPEC = {
             "seeded 2-3 delay plans}; plus targeted exit-vs-poll races, timeouts against silent children (incl. a SIGTERM-ignoring one) and against children whose "
             "poll set is never quiet (ticking stdout/stderr, closed stdout/stderr/stdin then hang), a grandchild that keeps the "
             "child's stdout/stderr write ends open for 2.5 s or until killed (both APIs), 24 calls in "
-            "one process (descriptor growth), Subprocess life cycle. Each scenario runs in its own forked process. "
+            "one process (descriptor growth), Subprocess life cycle; delays positioned relative to the run_process deadline "
+            "(the first/second waitpid, poll, read or write issued inside a window before the deadline - or right after the child's "
+            "last output has been read - is held until deadline + {1 ms, 20 ms}; children: one late burst then silence on stdout / "
+            "stderr / after consuming stdin / in two pieces / closing stdout afterwards, silent throughout, chatty, slow reader of a "
+            "1 MiB payload; the same around the end of the SIGTERM grace period for SIGTERM-surviving children); children that close "
+            "descriptors while they keep running: every ordered subset of {stdin, stdout, stderr} (16) x every placement of the closes "
+            "{before, between, after} the reading and writing phases (106 patterns) x phase order x P in {0,1,65536,65537,2^20} x four "
+            "ways of ending (exit code, linger then exit, signal, linger > 1 s), through both APIs, plus timeouts against children that "
+            "closed both outputs / everything. Each scenario runs in its own forked process. "
             "distinct_nontrivial = distinct (api, behaviour, payload bucket | volume bucket), delay-plan kinds, "
             "check/stdin/timeout combinations and monitor outcomes observed.",
     "level_text": "Every enumerated (behaviour, size pair, plan) scenario is executed against the real code; the delay plans move the "
@@ -52,6 +60,14 @@ SPEC = {
         "communicate:slow-parent-after-stdin:*", "run_process:slow-parent:*", "slow-parent:judged-child-finished-in-time",
         "plan:waitpid:past-deadline", "plan:poll:past-deadline", "plan:read:past-deadline", "plan:poll:eintr", "plan:waitpid-blocking:eintr*", "plan:signals:sigalrm-storm", "plan:signals:sibling-sigchld",
         "eintr:injected:poll", "eintr:injected:waitpid-blocking", "eintr:observed:poll", "eintr:observed:waitpid-blocking", "plan:none", "plan:waitpid:settle", "plan:poll:settle", "plan:poll:20ms", "plan:read:*", "plan:write:*",
+        "deadline-delay:placed:waitpid:deadline:after-output-read", "deadline-delay:placed:waitpid:deadline:time-window",
+        "deadline-delay:placed:poll:deadline:*", "deadline-delay:placed:read:deadline:*", "deadline-delay:placed:write:deadline:*",
+        "deadline-delay:placed:waitpid:grace-end:*", "run_process:poll-timeouts-requested:*",
+        "run_process:timeout-closed-both-outputs-hangs:*", "run_process:timeout-closed-all-hangs:*", "run_process:timeout-closed-both-outputs-reads-slowly:*",
+        "closes:run_process:both-outputs-closed-before-reading:P=1M", "closes:run_process:both-outputs-closed-before-reading:P=~64K",
+        "closes:communicate:both-outputs-closed-before-reading:P=1M", "closes:order:out>err", "closes:order:err>out", "closes:order:err>out>in",
+        "closes:when:before,between,after", "closes:end:2", "closes:end:3", "run_process:closes-both-outputs:P=1M", "run_process:closes-stdout:*",
+        "communicate:closes-both-outputs:P=1M", "communicate:closes-all:*",
         "run_process:check=1:*", "run_process:check=0:stdin=nullptr:*", "monitor:witness-selftest:deadlock-detected",
         "monitor:reaped:ECHILD", "monitor:fds:conserved*", "communicate:stderr=pipe", "communicate:stderr=devnull",
     ],
@@ -68,7 +84,12 @@ SPEC = {
         "communicate never reads stderr, so a child filling a stderr pipe is outside its contract: the child's stderr is a pipe only when the script writes <= 16 KiB there, else /dev/null",
         "hang witnesses are state-based (100 consecutive /proc samples): child blocked on a pipe to the parent while the parent is blocked "
         "or looping without moving a byte; child a zombie while the parent sits in one call without a timeout; parent has sat through "
-        "timeout+20 s of its own poll timeouts with the child alive. A hang without a witness is inconclusive, never a violation",
+        "timeout+20 s of its own poll timeouts with the child alive; a run_process timeout is pending, its deadline passed > 5 s ago "
+        "without a signal (or the first signal > 10 s ago without SIGKILL) and the parent sits in ONE call that cannot return on its own "
+        "(poll with a negative timeout, wait4 without WNOHANG) while the child is alive and no byte moves. A hang without a witness is "
+        "inconclusive, never a violation",
+        "deadline-relative delays use the 5 s SIGTERM->SIGKILL grace of the implementation only to *position* a delay, never as a verdict; "
+        "the timeouts poll() is asked for while a run_process timeout is pending are recorded and counted, not judged",
         "communicate's 'deadline' variant uses 60 s; a call that really takes longer (overloaded machine) is counted, not judged",
     ],
 }
